@@ -119,6 +119,83 @@ theorem paint_depth_bound_never_hit (d : Doc.Document) (cache : Cache) (key : St
     (drawObject d.fetcher d.opts d.svgInfo ((nestedKeys d.opts d.svgInfo).length + 2) [] cache key c).2.2 = false :=
   svg_drawing_terminates d.fetcher d.opts d.svgInfo cache key c
 
+/-! ## the depth bound does not matter -/
+
+private theorem drawItems_congr (fetcher : Fetcher) (opts : Opts) (deeper deeper' : Cache → String → Nat → Svg.DrawOut)
+    (h : ∀ cache key c, (deeper cache key c).2.2 = false → deeper' cache key c = deeper cache key c)
+    (items : List SvgItem) (cache : Cache) (hx : (drawItems fetcher opts deeper cache items).2.2 = false) :
+    drawItems fetcher opts deeper' cache items = drawItems fetcher opts deeper cache items := by
+  induction items generalizing cache with
+  | nil => rfl
+  | cons it rest ih =>
+    cases it with
+    | useExternal u =>
+      simp only [drawItems] at hx ⊢
+      rw [ih cache hx]
+    | image url =>
+      cases url with
+      | none => simp only [drawItems] at hx ⊢; exact ih cache hx
+      | some url =>
+        simp only [drawItems] at hx ⊢
+        by_cases he : (url == "") = true
+        · simp only [he, ↓reduceIte] at hx ⊢
+          exact ih cache hx
+        · have he' : (url == "") = false := by simpa using he
+          simp only [he', Bool.false_eq_true, ↓reduceIte] at hx ⊢
+          cases hg : getImage cache fetcher opts ⟨url, .fromImage, some "image/*"⟩ with
+          | mk c' r =>
+            obtain ⟨evs, out⟩ := r
+            simp only [hg] at hx ⊢
+            cases out with
+            | error e => rfl
+            | ok v =>
+              cases v with
+              | none =>
+                simp only at hx ⊢
+                rw [ih _ hx]
+              | some img =>
+                cases img with
+                | svg c =>
+                  simp only [Bool.or_eq_false_iff] at hx ⊢
+                  rw [h c' (nestedKey opts url) c hx.1, ih _ hx.2]
+                | raster f src cc =>
+                  simp only at hx ⊢
+                  rw [ih _ hx]
+
+/-- One more level of fuel changes nothing once the bound is not hit. -/
+theorem drawObject_fuel_mono (fetcher : Fetcher) (opts : Opts) (info : List (Nat × List SvgItem)) (fuel : Nat)
+    (drawing : List String) (cache : Cache) (key : String) (c : Nat)
+    (hx : (drawObject fetcher opts info fuel drawing cache key c).2.2 = false) :
+    drawObject fetcher opts info (fuel + 1) drawing cache key c = drawObject fetcher opts info fuel drawing cache key c := by
+  induction fuel generalizing drawing cache key c with
+  | zero => simp [drawObject] at hx
+  | succ fuel ih =>
+    simp only [drawObject] at hx ⊢
+    split
+    · rfl
+    · rename_i hnot
+      simp only [hnot] at hx
+      exact drawItems_congr fetcher opts _ _ (fun cache' key' c' hc => ih _ cache' key' c' hc) _ cache hx
+
+/-- `the model's answer does not depend on its depth bound`: with any fuel above the bound of
+`svg_drawing_terminates`, the drawing of an SVG image — cache, fetch events — is the one `Doc.run` computes. -/
+theorem svg_drawing_fuel_irrelevant (fetcher : Fetcher) (opts : Opts) (info : List (Nat × List SvgItem)) (cache : Cache)
+    (key : String) (c : Nat) (extra : Nat) :
+    drawObject fetcher opts info ((nestedKeys opts info).length + 2 + extra) [] cache key c =
+    drawObject fetcher opts info ((nestedKeys opts info).length + 2) [] cache key c := by
+  induction extra with
+  | zero => rfl
+  | succ n ih =>
+    have hx : (drawObject fetcher opts info ((nestedKeys opts info).length + 2 + n) [] cache key c).2.2 = false := by
+      apply drawObject_depth_bounded fetcher opts info (key :: nestedKeys opts info)
+      · intro k hk; exact List.mem_cons_of_mem _ hk
+      · exact List.nodup_nil
+      · intro k hk; simp at hk
+      · exact List.mem_cons_self
+      · simp only [List.length_cons, List.length_nil]; omega
+    have := drawObject_fuel_mono fetcher opts info _ [] cache key c hx
+    rw [show (nestedKeys opts info).length + 2 + (n + 1) = (nestedKeys opts info).length + 2 + n + 1 by omega, this, ih]
+
 /-! ## the order in which the images of a document are painted -/
 
 private theorem paintPass_cases (k : ImgKind) : k.paintPass = 0 ∨ k.paintPass = 1 ∨ k.paintPass = 2 := by
